@@ -142,6 +142,12 @@ func step(spec val.V, built interface{}, key string) (val.V, interface{}, string
 		}
 		return val.V{}, nil, "error"
 	}
+	switch spec.K {
+	case "int", "int8", "int16", "int32", "int64", "uint", "uint8", "uint16", "uint32", "uint64", "f64", "f32", "dec", "str", "bool", "time":
+		// a number, a text, a boolean, a time has no members: whether asking for one is null or an error is left open,
+		// but nothing comes back (in particular nothing of the value's Go internals)
+		return val.V{}, nil, "no-member"
+	}
 	return val.V{}, nil, "unspec"
 }
 
@@ -253,6 +259,14 @@ var c16Path = core.Mon(c16, "lookup", func(w *core.W, c *PathCase) {
 	switch status {
 	case "unspec":
 		w.Skip("unspecified-member-access")
+		return
+	case "no-member":
+		w.Count("members_of_scalars")
+		if out.Err == nil {
+			if el := out.Val.([]interface{})[0]; el != nil {
+				w.Violation("lookup", "C16/member-of-a-scalar-has-a-value", c, "null or an error", show(el), "a number, text, boolean or time has no members: "+src)
+			}
+		}
 		return
 	case "assert-error":
 		w.Count("assert_errors")
@@ -451,7 +465,7 @@ func c16Data(r *rand.Rand) val.V {
 
 var longKeyA, longKeyB = strings.Repeat("k", 299) + "a", strings.Repeat("k", 299) + "b"
 
-var c16Keys = []string{longKeyA, longKeyB, longKeyA[:299], "__p", "___p", "_p", "null", "true", "false", "this", "ctx", "typeof", "kw", "Qty", "Price", "Note", "City", "Floor", "Name", "Age", "p", "a", "b", "c", "k", "z", "name", "x1", "len", "max", "now", "A", "S", "F", "M", "P", "Any", "Nil", "N", "T", "priv", "Zz", "missing", "tm", "st", "np", "$v"}
+var c16Keys = []string{longKeyA, longKeyB, longKeyA[:299], "__p", "___p", "_p", "Context", "Precision", "wall", "loc", "null", "true", "false", "this", "ctx", "typeof", "kw", "Qty", "Price", "Note", "City", "Floor", "Name", "Age", "p", "a", "b", "c", "k", "z", "name", "x1", "len", "max", "now", "A", "S", "F", "M", "P", "Any", "Nil", "N", "T", "priv", "Zz", "missing", "tm", "st", "np", "$v"}
 
 // FollowCase: a name denotes the entry of the data map as it is now - whatever earlier evaluations on the same runner
 // read or assigned, and however the host changed the map since (another map, a single entry, its own map directly).
